@@ -335,8 +335,9 @@ struct ExecutorContext {
     pool_manager: PoolManager,
     /// Difference between the number of sent and received messages.
     ///
-    /// This counter is only updated by worker threads before they park and is
-    /// therefore only consistent once all workers are parked.
+    /// This counter is only updated by worker threads before they mark
+    /// themselves as inactive and is therefore only consistent once the pool is
+    /// idle.
     msg_count: AtomicIsize,
 }
 
@@ -516,13 +517,30 @@ fn run_local_worker(worker: &Worker, id: usize, parker: Parker, abort_signal: Si
         loop {
             // Signal barrier: park until notified to continue or terminate.
 
+            // Publish this thread's message count *before* the worker can be
+            // seen as inactive: the executor thread trusts the global count as
+            // soon as it observes an idle pool, so a worker that would first
+            // deactivate itself and only then publish its count would leave a
+            // window in which the executor thread reads a stale count and
+            // misses a deadlock, or reports a bogus one.
+            //
+            // Ordering: this Relaxed RMW is sequenced before the Release RMW
+            // in `try_set_worker_inactive` and, if this is the last active
+            // worker, before the Release store in `set_all_workers_inactive`.
+            // The last active worker synchronizes with the Release RMWs of all
+            // previously deactivated workers through its Acquire fence in
+            // `try_set_worker_inactive`, and the executor thread synchronizes
+            // with the Release store of the last active worker through its
+            // Acquire load in `pool_is_idle`. This thread neither sends nor
+            // receives messages until it is unparked or finds a new task.
+            update_msg_count();
+
             // Try to deactivate the worker.
             if pool_manager.try_set_worker_inactive(id) {
                 // No need to call `begin_worker_search()`: this was done by the
                 // thread that unparked the worker.
                 #[cfg(asynchronix_verif)]
                 crate::verif_hooks::pause_point("mt_worker:inactive_before_count_fold");
-                update_msg_count();
                 parker.park();
             } else if injector.is_empty() {
                 // This worker could not be deactivated because it was the last
@@ -534,7 +552,6 @@ fn run_local_worker(worker: &Worker, id: usize, parker: Parker, abort_signal: Si
                 pool_manager.set_all_workers_inactive();
                 #[cfg(asynchronix_verif)]
                 crate::verif_hooks::pause_point("mt_worker:all_inactive_before_count_fold");
-                update_msg_count();
                 executor_unparker.unpark();
                 parker.park();
                 // No need to call `begin_worker_search()`: this was done by the
